@@ -16,20 +16,24 @@ TB = ("Coq 8.16.1 kernel and vm_compute; hand-written Gallina model of lexer, pa
       "per-run correspondence check (Go harness built -tags verif from the working tree, per-case watchdog); Python fuzz / "
       "mutation generators and comparison code in tools/props/front*.py; ")
 CLAIM = dict(
-    text=("Theorems in coq/props/C05.v about the executable model of the front end (lexer cursor arithmetic, token buffer, all "
-          "Parse* productions with every loop on fuel, error printer index arithmetic with Crash for out-of-range): compilation "
-          "of EVERY code-point sequence ends within a fuel bound linear in its length (C05_total, via the progress lemma for "
-          "every parseItemListBlock consumer), with a tree or one syntax error whose cursor lies in 0..length "
-          "(C05_single_error_in_range); rendering that error never crashes and quotes exactly the source line holding the "
-          "cursor (C05_display_never_crashes, C05_quotes_existing_line). The model is tied to the code on every run: arbitrary "
-          "Unicode inputs (controls, unbalanced quotes/brackets/backticks, mixed indentation, lone CR, U+0000), truncation at "
-          "every offset and token/line mutations of generated valid programs go through syntax.Parser.Compile + "
-          "exec.DisplayError under a watchdog, and outcome (tree | code, cursor) must equal the model's; "
-          "exec.ExecVarInputText must return a map or an error for every input text."),
-    note=TB + ("'promptly' is proved as a linear fuel bound, wall-clock time is only observed by the watchdog; string-escape "
-               "scanning is modelled as in tokens.go but its documented meaning is C13's subject; ExecVarInputText is covered "
-               "by the differential run only (its evaluator belongs to the C10 model)."),
-    technique="Coq proof (progress / fuel bound, index arithmetic) + model/implementation correspondence by vm_compute + fuzzing under a watchdog",
+    text=("Theorems in coq/props/C05.v (closed under the global context) about the executable model of the front end (lexer "
+          "cursor arithmetic, token buffer, every Parse* production with every loop on fuel, error printer with Crash for "
+          "out-of-range indexing; repaired code: fixes/C03-1..4, C05-1..3, C13-1): C05_total - compiling ANY code-point sequence "
+          "with fuel 16*length+64 never runs out of fuel, via C05_progress (every production, from any parser state, either "
+          "raises or does not increase the measure 'characters not yet lexed', and every consumer that parseItemListBlock "
+          "iterates consumes at least one token) and C05_next_token_progress (the lexer); C05_display_never_crashes and "
+          "C05_quotes_existing_line - rendering an error never indexes out of range for any source / line table / cursor and "
+          "quotes a break-free piece of the source that starts at a recorded line start and ends at a line break or the end "
+          "of text. Tied to the code on every run: arbitrary Unicode inputs (controls, unbalanced quotes/brackets/backticks, "
+          "mixed indentation, lone CR, U+0000), truncation at every offset and token/line mutations of generated programs "
+          "go through syntax.Parser.Compile + exec.DisplayError under a watchdog; outcome (tree | code, cursor), rendered line, "
+          "line number and mark column must equal the models'; exec.ExecVarInputText must return a map or an error."),
+    note=TB + ("NOT proved, correspondence only: 0 <= cursor <= length for every error (checked on every generated input and "
+               "compared with the model's cursor); that line starts recorded by the lexer follow a line break (hypothesis-free "
+               "form of 'quotes an existing line'); ExecVarInputText (its evaluator is the C10 model's subject). 'Promptly' is a "
+               "linear fuel bound, wall-clock time is only observed by the watchdog. String scanning is the C13 model "
+               "(ps_loop_shape reused), token recognisers the C04 model (vendored copy model/LexerTok.v)."),
+    technique="Coq proof (progress measure / fuel bound by induction over productions, index arithmetic) + model/implementation correspondence by vm_compute + fuzzing under a watchdog",
     design="5/C05")
 
 VARINPUT_SNIPPETS = ["A = 1", "甲 = “文本”", "A = 【1，2，3】", "A = 【K = 1】", "A = B", "A = 其B", "A = 1 + 2 * 3", "A 设为 -5", "A = （显示：1）",
@@ -162,7 +166,7 @@ def run(chk, replay=None):
 
     # ---- Stage 2: the model on the same inputs
     pairs = list(zip(texts, outs))
-    lim = 400 if quick else 8000
+    lim = 700 if quick else 8000
     sel = pairs[:n_corpus] + rng.sample(pairs[n_corpus:], min(lim, len(pairs) - n_corpus))
     seen = set()
     for sig, what, text in fm.compare(chk, [t for t, _ in sel], [o for _, o in sel], "C05"):
@@ -175,7 +179,7 @@ def run(chk, replay=None):
     from props import frontmodel_impl as fmi
     if fm.model_available():
         dsel = [(t, o) for t, o in pairs if len(t) <= 200]
-        dsel = dsel[:n_corpus] + rng.sample(dsel[n_corpus:], min(300 if quick else 5000, max(len(dsel) - n_corpus, 0)))
+        dsel = dsel[:n_corpus] + rng.sample(dsel[n_corpus:], min(500 if quick else 5000, max(len(dsel) - n_corpus, 0)))
         for sig, what, text in fmi.compare_display(chk, [t for t, _ in dsel], [o for _, o in dsel])[:3]:
             chk.violation(what, sig, {"kind": "model-vs-implementation", "text": text, "signature": sig})
 
